@@ -654,7 +654,8 @@ def replay(check: Check, path: str) -> int:
     with open(path) as f:
         doc = json.load(f)
     check.setup("quick")
-    payload = run_one_forked(check.run, doc["case"], check.per_run_timeout_s * 2)
+    # one run, possibly on a busy machine: a generous limit (a replay that is merely slow must not turn a violation into "no verdict")
+    payload = run_one_forked(check.run, doc["case"], max(check.per_run_timeout_s * 6, 300.0))
     if not payload.get("ok"):
         print(f"[rsim] replay harness error: {payload.get('error')}\n{payload.get('trace', '')}")
         return 2
